@@ -102,8 +102,22 @@ fn cond_case(s: String, tag: &str) -> Value {
 }
 
 fn match_case(s: String, tag: &str) -> Value {
-    // tables for every quoted literal that may appear
-    let lits: Vec<String> = ["a", "b", "1", "1.5", "[", "none", "some", "true", "false", "", "a' 'a", "1' '1", "False", "SOME", "True", "NONE"].iter().map(|x| x.to_string()).collect();
+    // tables for every quoted literal that may appear: the fixed ones, and every substring of `s` that lies between
+    // two quote characters (lone quote tokens can enclose anything, e.g. `' '`)
+    let mut lits: Vec<String> = ["a", "b", "1", "1.5", "[", "none", "some", "true", "false", "", "a' 'a", "1' '1", "False", "SOME", "True", "NONE"].iter().map(|x| x.to_string()).collect();
+    let cs: Vec<(usize, char)> = s.char_indices().collect();
+    for (a, (i, c)) in cs.iter().enumerate() {
+        if *c == '\'' || *c == '"' {
+            for (j, d) in cs.iter().skip(a + 1) {
+                if *d == '\'' || *d == '"' {
+                    let inner = &s[i + 1..*j];
+                    if !lits.iter().any(|l| l == inner) {
+                        lits.push(inner.to_string());
+                    }
+                }
+            }
+        }
+    }
     let ext = ext_tables(&lits, &[], &lits);
     json!({"op": "parse_match", "s": s, "ext": ext, "tag": tag, "nt": true})
 }
